@@ -68,6 +68,16 @@ def run(ctx):
         ctx.fail({"why": "prod-" + v["why"], "part": "production", "dec": r["dec"]},
                  f"{r['dec']} decoder input={bytes(r['input'])!r} chunks={run_.get('chunks')}: events {[(e['d'] or e['b']) for e in run_.get('got', [])]} differ from the leftmost-longest tokenisation ({v['why']})",
                  {"part": "production", "dec": r["dec"], "input": r["input"], "id": r["id"]})
+    # (c) recognised sequences far longer than any buffer of the decoder
+    lrec = ctx.path("long.ndjson")
+    lib.harness(["c03-long", "--seed", ctx.seed], stdout=lrec)
+    lrecs = lib.read_ndjson(lrec)
+    lv, _ = lib.judge_sharded(ctx, "decoder/LongJudge", None, lrecs, "long", nshards=4)
+    lby = {r["id"]: r for r in lrecs}
+    for v in lv:
+        r = lby[v["id"]]
+        ctx.fail({"why": "long-" + v["why"], "part": "long", "kind": r["kind"]},
+                 f"{r['kind']} of {r['n']} bytes: {v['why']}: events per cut {[(x['cut'], len(x['digest'])) for x in r['runs']]} {r['panic']}", {"part": "long", "kind": r["kind"], "n": r["n"]})
     shapes = {(r["dec"], tuple((t["v"], tuple(t["acc"])) for t in r["table"])) for r in ok}
     cov = {
         "states": sum(m["states"] for m in ctx.mc), "transitions": sum(m["transitions"] for m in ctx.mc),
@@ -75,7 +85,7 @@ def run(ctx):
         "samples": [{"pats": trecs[len(trecs) // 2]["pats"], "input": trecs[len(trecs) // 2]["input"], "runs": trecs[len(trecs) // 2]["runs"][:2]},
                     {"dec": ok[len(ok) // 2]["dec"], "input": ok[len(ok) // 2]["input"], "events": ok[len(ok) // 2]["runs"][0]["got"]}],
         "model_runs": ctx.mc,
-        "tokeniser_vectors": len(trecs), "production_inputs": len(ok),
+        "tokeniser_vectors": len(trecs), "production_inputs": len(ok), "long_sequences": len(lrecs),
         "production_inputs_crashed_left_to_C02": len(crashed),
         "evaluations": len(trecs) + len(ok), "distinct_nontrivial": len(shapes),
         "rule": "core: every pattern set of the configuration x every input <= MaxLen x 5 chunkings; production: seeded corpus of protocol fragments, hostile UTF-8 and random bytes (<= 48 bytes) x 4 chunkings; distinct = distinct (decoder, acceptance-table shape) pairs",
